@@ -3,7 +3,7 @@ import DarkluaModel.Shared.VisitorSound.Heap.HParam
 # Loops: related step functions (at every extension of the injection) give related loops
 -/
 namespace DarkluaModel.Sem.Heap
-variable {N : NumOps} {Q : QRel} {β : CellRel}
+variable {N : NumOps} {Q : QRel} {cx : Cx} {β : CellRel}
 
 /-- control results agree in shape and returned values (environments ignored) -/
 def CtlShape : Ctl N → Ctl N → Prop
@@ -19,9 +19,9 @@ def OCtlShape : Option (Ctl N) → Option (Ctl N) → Prop
   | _, _ => False
 
 theorem whileLoop_rel {step step' : State N → Res N (Option (Ctl N))}
-    (hstep : ∀ β', β.le β' → ∀ s s', SRel Q β' s s' → RRel Q β' (fun _ => OCtlShape) (step s) (step' s'))
-    (n : Nat) {σ σ' : State N} (h : SRel Q β σ σ') :
-    RRel Q β AEq (whileLoop step n σ) (whileLoop step' n σ') := by
+    (hstep : ∀ β', β.le β' → ∀ s s', SRel Q cx β' s s' → RRel Q cx β' (fun _ => OCtlShape) (step s) (step' s'))
+    (n : Nat) {σ σ' : State N} (h : SRel Q cx β σ σ') :
+    RRel Q cx β AEq (whileLoop step n σ) (whileLoop step' n σ') := by
   induction n generalizing σ σ' β with
   | zero => simp only [whileLoop]; exact RRel.timeout
   | succ n ih =>
@@ -34,7 +34,7 @@ theorem whileLoop_rel {step step' : State N → Res N (Option (Ctl N))}
     cases r <;> cases r' <;> simp only [RRel] at hr
     · obtain ⟨β1, hle, ha, hs⟩ := hr
       rename_i a _ a' _
-      have ihn := fun {s s' : State N} (hs : SRel Q β1 s s') =>
+      have ihn := fun {s s' : State N} (hs : SRel Q cx β1 s s') =>
         RRel.mono hle (ih (fun β2 h2 => hstep β2 (CellRel.le_trans hle h2)) hs)
       cases a <;> cases a' <;> simp only [OCtlShape] at ha
       · exact RRel.mono hle (RRel.okEq hs)
@@ -49,9 +49,9 @@ theorem whileLoop_rel {step step' : State N → Res N (Option (Ctl N))}
     · exact RRel.timeout
 
 theorem forLoop_rel {body body' : N.F → State N → Res N (Ctl N)}
-    (hbody : ∀ β', β.le β' → ∀ i s s', SRel Q β' s s' → RRel Q β' (fun _ => CtlShape) (body i s) (body' i s'))
-    (limit step : N.F) (n : Nat) (i : N.F) {σ σ' : State N} (h : SRel Q β σ σ') :
-    RRel Q β AEq (forLoop body limit step n i σ) (forLoop body' limit step n i σ') := by
+    (hbody : ∀ β', β.le β' → ∀ i s s', SRel Q cx β' s s' → RRel Q cx β' (fun _ => CtlShape) (body i s) (body' i s'))
+    (limit step : N.F) (n : Nat) (i : N.F) {σ σ' : State N} (h : SRel Q cx β σ σ') :
+    RRel Q cx β AEq (forLoop body limit step n i σ) (forLoop body' limit step n i σ') := by
   induction n generalizing i σ σ' β with
   | zero => simp only [forLoop]; exact RRel.timeout
   | succ n ih =>
@@ -70,7 +70,7 @@ theorem forLoop_rel {body body' : N.F → State N → Res N (Ctl N)}
       cases r <;> cases r' <;> simp only [RRel] at hr
       · obtain ⟨β1, hle, ha, hs⟩ := hr
         rename_i c _ c' _
-        have ihn := fun (j : N.F) {s s' : State N} (hs : SRel Q β1 s s') =>
+        have ihn := fun (j : N.F) {s s' : State N} (hs : SRel Q cx β1 s s') =>
           RRel.mono hle (ih (fun β2 h2 => hbody β2 (CellRel.le_trans hle h2)) j hs)
         cases c <;> cases c' <;> simp only [CtlShape] at ha
         · exact ihn _ hs
@@ -83,10 +83,10 @@ theorem forLoop_rel {body body' : N.F → State N → Res N (Ctl N)}
 
 theorem gforLoop_rel {iter iter' : Val N → State N → Res N (List (Val N))}
     {body body' : List (Val N) → State N → Res N (Ctl N)}
-    (hiter : ∀ β', β.le β' → ∀ c s s', SRel Q β' s s' → RRel Q β' AEq (iter c s) (iter' c s'))
-    (hbody : ∀ β', β.le β' → ∀ rs s s', SRel Q β' s s' → RRel Q β' (fun _ => CtlShape) (body rs s) (body' rs s'))
-    (n : Nat) (ctl : Val N) {σ σ' : State N} (h : SRel Q β σ σ') :
-    RRel Q β AEq (gforLoop iter body n ctl σ) (gforLoop iter' body' n ctl σ') := by
+    (hiter : ∀ β', β.le β' → ∀ c s s', SRel Q cx β' s s' → RRel Q cx β' AEq (iter c s) (iter' c s'))
+    (hbody : ∀ β', β.le β' → ∀ rs s s', SRel Q cx β' s s' → RRel Q cx β' (fun _ => CtlShape) (body rs s) (body' rs s'))
+    (n : Nat) (ctl : Val N) {σ σ' : State N} (h : SRel Q cx β σ σ') :
+    RRel Q cx β AEq (gforLoop iter body n ctl σ) (gforLoop iter' body' n ctl σ') := by
   induction n generalizing ctl σ σ' β with
   | zero => simp only [gforLoop]; exact RRel.timeout
   | succ n ih =>
@@ -112,7 +112,7 @@ theorem gforLoop_rel {iter iter' : Val N → State N → Res N (List (Val N))}
         · obtain ⟨β2, hle2, ha2, hs2⟩ := hb
           have hle' := CellRel.le_trans hle hle2
           rename_i c _ c' _
-          have ihn := fun (j : Val N) {s s' : State N} (hs : SRel Q β2 s s') =>
+          have ihn := fun (j : Val N) {s s' : State N} (hs : SRel Q cx β2 s s') =>
             RRel.mono hle' (ih (fun β3 h3 => hiter β3 (CellRel.le_trans hle' h3))
               (fun β3 h3 => hbody β3 (CellRel.le_trans hle' h3)) j hs)
           cases c <;> cases c' <;> simp only [CtlShape] at ha2
